@@ -35,6 +35,13 @@ func (s *Switch) AddPeer(addr boson.Address, protos ...p2p.ProtocolSpec) {
 	s.mu.Unlock()
 }
 
+// SetPeer replaces the protocols registered for addr.
+func (s *Switch) SetPeer(addr boson.Address, protos ...p2p.ProtocolSpec) {
+	s.mu.Lock()
+	s.peers[addr.String()] = protos
+	s.mu.Unlock()
+}
+
 var errNoPeer = errors.New("mininode: peer not connected")
 
 func (s *Switch) NewStream(ctx context.Context, addr boson.Address, h p2p.Headers, protocolName, protocolVersion, streamName string) (p2p.Stream, error) {
